@@ -223,6 +223,17 @@ func c09Opts(i int) rt.Opts {
 	return o
 }
 
+// c09LimitBound reports whether a load's outcome mentions one of the
+// per-runtime resource limits c09Opts varies.
+func c09LimitBound(val string) bool {
+	for _, m := range []string{"step-limit-exceeded", "stack height exceeded", "eval-nesting-exceeded", "exceeds maximum", "allocation size"} {
+		if strings.Contains(val, m) {
+			return true
+		}
+	}
+	return false
+}
+
 func c09Run(w *fw.W, idx int) {
 	src, label, _, feats := c09Source(w, idx)
 	w.Logf("source:\n%s", src)
@@ -280,11 +291,24 @@ func c09Run(w *fw.W, idx int) {
 		return
 	}
 
+	// The runtimes below are configured with different limits to expose
+	// shared configuration.  A program whose outcome is one of those limits
+	// legitimately differs between them, so such a program is run under the
+	// reference configuration everywhere.
+	opts := c09Opts
+	for _, r := range ref {
+		if c09LimitBound(r.val) {
+			opts = func(int) rt.Opts { return c09Opts(0) }
+			w.Count("limit_bound_programs", 1)
+			break
+		}
+	}
+
 	// (b) fresh runtimes; isolation of a bystander runtime
 	bystander := rt.New(rt.Opts{})
 	byBefore := c09SymbolDump(bystander)
 	for i := 0; i < 2; i++ {
-		fr := rt.New(c09Opts(i + 1))
+		fr := rt.New(opts(i + 1))
 		got := c09Load(fr, func() *lisp.LVal { return fr.Env.LoadProgram(prog) })
 		w.Eval(1)
 		if got != ref[0] {
@@ -311,7 +335,7 @@ func c09Run(w *fw.W, idx int) {
 		wg.Add(1)
 		go func(g int) {
 			defer wg.Done()
-			r := rt.New(c09Opts(g))
+			r := rt.New(opts(g))
 			for i := 0; i < R && i < k; i++ {
 				got := c09Load(r, func() *lisp.LVal { return r.Env.LoadProgram(prog) })
 				if got != ref[i] {
